@@ -29,11 +29,24 @@ def violated (cfg : Cfg) (rows : List Row) (n : Int) : DQ → Prop
 
 /-- **the reported set is exactly the set of violated criteria**: a disqualification is reported if and
 only if its criterion is violated — nothing else is reported and nothing is withheld -/
-theorem C10_verdict_exact (cfg : Cfg) (rows : List Row) (n : Int) (h : nDaysTotal rows = some n) (d : DQ) :
+theorem C10_verdict_exact (cfg : Cfg) (rows : List Row) (n : Int) (h : nDaysTotal rows = some n)
+    (hm : cfg.methodReporting = cfg.reporting) (d : DQ) :
     d ∈ verdict cfg rows ↔ violated cfg rows n d := by
   unfold verdict
-  rw [h]
+  rw [h, hm]
   cases d <;> simp [violated, List.mem_append, List.any_eq_true] <;> tauto
+
+/-- a data class that runs the reporting checks but forgets to pass `is_reporting_data` judges reporting
+data by its usage as well: the verdict can then contain a usage-based disqualification although no
+reporting criterion is violated (what `HourlyReportingData` did before the repair; witness of C10-F4) -/
+example :
+    let rows : List Row := (List.range 40).map fun (i : Nat) =>
+      { t := (i : Int) * 1440, month := 1, obsPresent := i % 2 == 0, obsNegative := false, tempPresent := true,
+        tempCovOK := true, ghi := none, complete := i % 2 == 0 }
+    verdict { family := .hourly, methodReporting := true, reporting := false, electric := true } rows
+        = [DQ.too_many_days_with_missing_data]
+      ∧ verdict { family := .hourly, methodReporting := true, reporting := true, electric := true } rows = [] := by
+  decide +kernel
 
 /-- with no complete row the only verdict is `no_data` -/
 theorem C10_no_data (cfg : Cfg) (rows : List Row) (h : nDaysTotal rows = none) : verdict cfg rows = [.no_data] := by
@@ -58,9 +71,9 @@ theorem C10_under90_iff (v n : Int) (hn : 0 < n) : under90 v n = true ↔ 10 * v
 
 /-- the length criterion is the closed interval 329..365 -/
 theorem C10_length_ok_iff (cfg : Cfg) (rows : List Row) (n : Int) (h : nDaysTotal rows = some n)
-    (hb : cfg.reporting = false) :
+    (hm : cfg.methodReporting = cfg.reporting) (hb : cfg.reporting = false) :
     DQ.incorrect_number_of_total_days ∉ verdict cfg rows ↔ 329 ≤ n ∧ n ≤ 365 := by
-  rw [C10_verdict_exact cfg rows n h]
+  rw [C10_verdict_exact cfg rows n h hm]
   simp only [violated, hb, true_and]
   omega
 
